@@ -397,6 +397,9 @@ CLAIMED["C09"] = {
     "row inside the prior bounds with logP = the model's log-prior and logL "
     "= the model's log-likelihood at its point); an analytic pool has "
     "exactly the requested size, a prior-rejection pool at most that size; "
+    "FlowProposal.convert_to_samples fills logP with the model's "
+    "log-prior at the row's point in both pool spaces (physical and "
+    "x-prime); "
     "the row handed out is a pool row whose index leaves the list, so no "
     "row is handed out twice, and `populated` is exactly 'indices left'. "
     "The likelihood is only ever evaluated on in-bounds / in-unit-hypercube "
@@ -410,7 +413,11 @@ CLAIMED["C09"] = {
     "restricted to the contour (a statement about probability measures; no "
     "contract here expresses it), the radially truncated latent samplers "
     "(numerics), log-q truncation and the x-prime-prior mode of "
-    "FlowProposal.populate, the augmented / GW / clustering proposals, "
+    "FlowProposal.populate, that pool points have a FINITE log-prior (the "
+    "acceptance step relies on IEEE semantics: -inf - -inf = NaN and "
+    "comparisons with NaN are False, which the exponential-image calculus "
+    "does not model; seed C09-b is therefore not detected), the augmented "
+    "/ GW / clustering proposals, "
     "ImportanceNestedSampler.populate_live_points. FlowProposal.populate "
     "itself IS under contract (rejection loop with loop invariants, both "
     "the per-batch and the accumulate-weights mode): exactly N in-bounds "
